@@ -59,7 +59,39 @@ fn widths(ty: &[L], f: &dyn Fn(L) -> Vec<L>) -> Vec<usize> {
     ty.iter().map(|l| f(*l).len()).collect()
 }
 
+/// reference optic image of a plain diagram: substitution of lenses
+pub fn optic_reference(spec: &OSpec, p: &Plain) -> Plain {
+    let ob = |l: L| -> Vec<L> { spec.f_of(l).into_iter().chain(spec.r_of(l)).collect() };
+    let op = |l: L, a: &[L], b: &[L]| -> Plain {
+        let blocks = |ty: &[L], fwd: bool| -> Vec<Vec<L>> { ty.iter().map(|x| if fwd { spec.f_of(*x) } else { spec.r_of(*x) }).collect() };
+        lens(&spec.fwd_image(l, a, b), &spec.rev_image(l, a, b), &blocks(a, true), &blocks(a, false), &blocks(b, true), &blocks(b, false), spec.m(l).len())
+    };
+    p.substitute(&ob, &op)
+}
+/// reference adapted form of the optic image of a diagram of type a -> b
+pub fn adapted_reference(spec: &OSpec, image: &Plain, a: &[L], b: &[L]) -> Plain {
+    let fwd = |l: L| spec.f_of(l);
+    let rev = |l: L| spec.r_of(l);
+    adapt_ref(image, &widths(a, &fwd), &widths(a, &rev), &widths(b, &fwd), &widths(b, &rev))
+}
+
 dev_impl! {
+    /// apply a generated optic on device K (optionally followed by adapt)
+    pub fn c14_apply(spec: &OSpec, f: &OH<K>, adapted: bool) -> OH<K> {
+        let residual_spec = spec.clone();
+        let optic: Optic<HalfOptic, HalfOptic, K, L, L, L, L> = Optic::new(
+            HalfOptic { spec, forward: true },
+            HalfOptic { spec, forward: false },
+            Box::new(move |ops: &Operations<K, L, L>| Self::seg_labels(&K::un(&ops.x.0).iter().map(|x| residual_spec.m(*x)).collect::<Vec<_>>())),
+        );
+        let img = optic.map_arrow(f);
+        if adapted {
+            optic.adapt(&img, &f.source(), &f.target())
+        } else {
+            img
+        }
+    }
+
     fn c14_plain(name: &str, f: &OH<K>) -> Result<Plain, String> {
         Self::from_dev(f).map_err(|e| format!("{}: ill-formed result: {}", name, e))
     }
@@ -317,7 +349,7 @@ fn judge_deriv(ex: &mut Exec, c: &DerivCase, cfg: &str, r: Result<Result<DerivOb
     Ok(())
 }
 
-fn gen_ospec(r: &mut Rng, node_labels: usize) -> OSpec {
+pub fn gen_ospec(r: &mut Rng, node_labels: usize) -> OSpec {
     let out_labels = r.range(1, 2);
     let obj = |r: &mut Rng| -> Vec<Vec<L>> { (0..node_labels.max(1)).map(|_| (0..r.below(3)).map(|_| r.below(out_labels) as L).collect()).collect() };
     let fwd_ob = obj(r);
